@@ -81,6 +81,15 @@ def faults():
         ("unsupported-control-keyword", "st", "% foo x:\n% endfoo\n", 0, 0, True, ""),
         ("not-a-partial-statement", "st", "% if x\n% endif\n", 0, 0, True, ""),
         ("duplicate-def-block", "st", '<%def name="b()">1</%def>\n\n  <%block name="b">2</%block>', 2, 2, False, ""),
+        # faults that only Python's compiler (not its parser) finds, when the generated module is compiled: they must come back as
+        # a Mako exception at the template line all the same (repaired: 1ec6756); and a malformed tag name (fa84016)
+        ("compile-only-return-in-module-block", "py", "<%!\n  x = 1\n  return x\n%>", 2, 0, False, ""),
+        ("compile-only-statement-in-expr", "py", "${import os}", 0, 0, False, ""),
+        ("compile-only-break-in-block", "py", "<%\n  y = 2\n  break\n%>", 2, 0, False, ""),
+        ("compile-only-nonlocal", "py", "<%\n  nonlocal q\n%>", 1, 0, False, ""),
+        ("compile-only-decorator", "py", '<%def name="f()" decorator="a b">q</%def>', 0, 0, False, ""),
+        ("compile-only-duplicate-argument", "py", '<%def name="f(a, a)">q</%def>', 0, 0, False, ""),
+        ("tag-name-two-colons", "st", "<%a:b:c/>", 0, 0, False, ""),
         # known findings (reported elsewhere than the fault)
         ("unclosed-tag", "st", '<%def name="f()">\n x\n y', 0, 0, False, "EOF"),
         ("def-signature-second-line", "py", '<%def\n   name="f(a,,b)">q</%def>', 1, 0, False, ""),
